@@ -26,4 +26,4 @@ def run(run, model):
     run.minimum("C07.assembly", 24)
     run.minimum("C07.text", 3)
     run.minimum("C07.layout-regex", 2)
-    run.minimum("C07.no-swallow", 6)
+    run.minimum("C07.no-swallow", 3)
